@@ -229,6 +229,153 @@ def flow_control_probe(kind, rng, ids):
         asyncio.set_event_loop(asyncio.new_event_loop())
 
 
+def neighbour_probe(kind, rng, ids):
+    """Two sessions alive in one process. A write on the first is refused by its transport (RuntimeError out of transport.write, as a
+    closing transport does); the next ordinary batch on the SECOND session must still be one write that decodes to exactly that
+    batch (under that session's next nonce). Returns a problem text or None."""
+    def fail(_d):
+        raise RuntimeError("transport is closing")
+    batch_a = [(75, rng.randbytes(30)), (33, b"\x08\x07")]
+    batch_b = gen_pkts(rng, ids)
+    if kind == "plaintext":
+        from aioesphomeapi._frame_helper.plain_text import APIPlaintextFrameHelper
+        hs, trs, ws = [], [], []
+        for _ in range(2):
+            h = APIPlaintextFrameHelper(connection=MagicMock(), client_info="x", log_name="x")
+            tr, w = MagicMock(), []
+            tr.write.side_effect = lambda d, w=w: w.append(bytes(d))
+            h.connection_made(tr)
+            hs.append(h); trs.append(tr); ws.append(w)
+        hs[0].write_packets([(7, b"")], False)
+        hs[1].write_packets([(7, b"")], False)
+        trs[0].write.side_effect = fail
+        try:
+            hs[0].write_packets(batch_a, False)
+            return "a write the transport refused did not raise"
+        except Exception:  # noqa: BLE001
+            pass
+        n0 = len(ws[1])
+        hs[1].write_packets(batch_b, False)
+        new = ws[1][n0:]
+        if len(new) != 1:
+            return f"{len(new)} transport writes for one batch on the second session"
+        try:
+            dec = simnet.decode_plain_stream(new[0])
+        except (ValueError, IndexError) as e:
+            return f"second session: bytes do not decode ({e})"
+        if dec != batch_b:
+            return (f"after a refused write on ANOTHER plaintext session the second session wrote {[(t, len(p)) for t, p in dec][:6]} "
+                    f"for the batch {[(t, len(p)) for t, p in batch_b][:6]}")
+        return None
+    sessions = []
+    for _ in range(2):
+        psk = rng.randbytes(32)
+        resp = noisesim.Responder(psk, b"dev")
+        sess = noisesim.ImplSession(noisesim.b64(psk), None)
+        sess.op("made")
+        hs_frame, _ = resp.handshake_frames(noisesim.split_frames(sess.writes[0])[1][1:])
+        sess.op("data", resp.hello_frame() + hs_frame)
+        sess.op("write", [(7, b"")])
+        resp.decrypt_client_frame(noisesim.split_frames(sess.writes[-1])[0])
+        sessions.append((sess, resp))
+    (sa, _ra), (sb, rb) = sessions
+    keep = sa.transport.write.side_effect
+    sa.transport.write.side_effect = fail
+    sa.op("write", batch_a)
+    sa.transport.write.side_effect = keep
+    n0 = len(sb.writes)
+    sb.op("write", batch_b)
+    new = sb.writes[n0:]
+    if len(new) != 1:
+        return f"{len(new)} transport writes for one batch on the second session"
+    try:
+        fr = noisesim.split_frames(new[0])
+        got = []
+        for f in fr:
+            pt = rb.decrypt_client_frame(f)
+            got.append(((pt[0] << 8) | pt[1], pt[4:]))
+    except Exception as e:  # noqa: BLE001
+        return f"after a refused write on ANOTHER Noise session the second session's frames do not authenticate under its next nonce ({type(e).__name__})"
+    if got != batch_b:
+        return f"second Noise session wrote {[(t, len(p)) for t, p in got][:6]} for the batch {[(t, len(p)) for t, p in batch_b][:6]}"
+    return None
+
+
+def refused_batch_history_probe(rng):
+    """A real APIConnection over Noise against the independent responder; send_messages calls of which some are refused because a
+    message of the batch has no wire id (first / middle / last position). Every frame the client writes over the whole session
+    must authenticate under the next consecutive nonce, and every accepted call must be one write decoding to exactly its
+    messages. Returns a problem text or None."""
+    from vlib import simnet as _simnet
+
+    async def go(loop):
+        from aioesphomeapi import api_pb2 as pb
+        from aioesphomeapi.connection import APIConnection, ConnectionParams
+        from aioesphomeapi.core import MESSAGE_TYPE_TO_PROTO as _M2P
+        PROTO_TO_MESSAGE_TYPE = {v: k for k, v in _M2P.items()}
+        from aioesphomeapi.zeroconf import ZeroconfManager
+        net = _simnet.Net(loop)
+        psk = rng.randbytes(32)
+        params = ConnectionParams(addresses=["10.0.0.1"], port=6053, password=None, client_info="v", keepalive=20.0,
+                                  zeroconf_manager=ZeroconfManager(), noise_psk=noisesim.b64(psk), expected_name=None)
+        conn = APIConnection(params, lambda e: None, False, None)
+        with net.patched():
+            await conn.start_connection()
+            task = asyncio.ensure_future(conn.finish_connection(login=False))
+            await _simnet.drain(loop)
+            tr = net.transports[-1]
+            resp = noisesim.Responder(psk, b"dev")
+            first = b"".join(d for _, d in tr.writes)
+            hs, _ = resp.handshake_frames(noisesim.split_frames(first)[1][1:])
+            n_hs = len(tr.writes)
+            tr.feed(resp.hello_frame() + hs)
+            await _simnet.drain(loop)
+            tr.feed(resp.data_frame(2, pb.HelloResponse(api_version_major=1, api_version_minor=10, name="dev").SerializeToString())[0])
+            await _simnet.drain(loop)
+            await task
+            for _, d in tr.writes[n_hs:]:
+                for f in noisesim.split_frames(d):
+                    resp.decrypt_client_frame(f)          # the hello request
+            ok_a = pb.SwitchCommandRequest(key=7, state=True)
+            ok_b = pb.LightCommandRequest(key=9, has_state=True, state=True)
+            ok_c = pb.BluetoothGATTWriteRequest(address=1, handle=2, data=b"\x01" * 30)
+            noid = pb.BluetoothServiceData(uuid="x")
+            assert type(noid) not in PROTO_TO_MESSAGE_TYPE
+            calls = [(ok_a,), (ok_a, ok_b), (noid,), (ok_c,), (ok_a, ok_b, noid), (ok_b,), (ok_a, noid, ok_b), (noid, ok_a), (ok_c, ok_a), (ok_a,)]
+            problem = None
+            for k, batch in enumerate(calls):
+                n0 = len(tr.writes)
+                refused = None
+                try:
+                    conn.send_messages(batch)
+                except Exception as e:  # noqa: BLE001
+                    refused = type(e).__name__
+                new = [d for _, d in tr.writes[n0:]]
+                got = []
+                try:
+                    for d in new:
+                        for f in noisesim.split_frames(d):
+                            n = resp.recv_n
+                            pt = resp.decrypt_client_frame(f)
+                            got.append(((pt[0] << 8) | pt[1], pt[4:]))
+                except Exception:  # noqa: BLE001
+                    problem = (f"call {k} ({[type(m).__name__ for m in batch]}{', refused with ' + refused if refused else ''}): a frame written does not authenticate under "
+                               f"the next consecutive nonce {n} (an earlier refused batch consumed cipher state)")
+                    break
+                if refused is None:
+                    want = [(PROTO_TO_MESSAGE_TYPE[type(m)], m.SerializeToString()) for m in batch]
+                    if len(new) != 1 or got != want:
+                        problem = f"call {k} ({[type(m).__name__ for m in batch]}): {len(new)} write(s) decoding to {[(t, len(p)) for t, p in got]}, expected one write with {[(t, len(p)) for t, p in want]}"
+                        break
+                if not conn.is_connected:
+                    problem = f"call {k} ({[type(m).__name__ for m in batch]}, {refused}): the connection did not survive"
+                    break
+            conn.force_disconnect()
+            await _simnet.drain(loop)
+        return problem
+    return _simnet.run(go)
+
+
 def run(rep, tier, seed):
     rng = random.Random(seed)
     asyncio.set_event_loop(asyncio.new_event_loop())
@@ -332,6 +479,21 @@ def run(rep, tier, seed):
             if bad:
                 rep.violation("C02/flow-control", f"{kind} helper, pause_writing/resume_writing around write_packets: {bad}",
                               {"kind": "impl-trace", "helper": kind, "schedule": detail})
+
+    # ---- sessions do not meet: a refused write on one leaves the next batch of another untouched; refused batches leave the nonce sequence intact
+    for kind in ("plaintext", "noise"):
+        for trial in range(3 if tier == "quick" else 20):
+            bad = neighbour_probe(kind, rng, ids)
+            rep.case(("neighbour", kind, trial), True, sample={"kind": "two-sessions", "helper": kind, "problem": bad})
+            rep.bump("neighbour:" + kind)
+            if bad:
+                rep.violation("C02/neighbour", f"{kind} helper, two sessions in one process: {bad}", {"kind": "impl-trace", "helper": kind, "probe": "neighbour"})
+    bad = refused_batch_history_probe(rng)
+    rep.case(("refused-batch-history",), True, sample={"kind": "refused-batch-history", "problem": bad})
+    rep.bump("refused-batch-history")
+    if bad:
+        rep.violation("C02/noise/history", "APIConnection.send_messages over Noise, calls with and without a message that has no wire id: " + bad,
+                      {"kind": "impl-trace", "helper": "noise", "probe": "refused-batch-history"})
 
     # ---- connection level: send_messages = one write, ids from the registry
     def conn_sweep(loop):
